@@ -7,7 +7,7 @@ from ..core import Anchor
 PID = "C15"
 LEVEL = "other"
 CRATES = ["rlib_iter"]
-RELEASE = False
+RELEASE = True
 ARMED = True
 ENGINES = ["E10", "E3"]
 TECHNIQUE = "constant-table comparison of the literal offset arrays, path-fact extraction of the four-sided bounds test in the filter closures with capture-to-parameter binding, term shape of the map closures; impl table and assertion scan for the mask steppers; event shapes of the permutation iterator"
